@@ -3,6 +3,7 @@ import BppModel.ParamList
 import BppModel.ParamListSpec
 import BppModel.ParamListExt
 import BppModel.ParamListExtSpec
+import BppModel.ParamListListen
 /-
 Driver for C02 (ParameterList / AbstractParametrizable).  Six list registers (0..3 plain
 lists, 4..5 owned by an AbstractParametrizable).  After each operation the whole machine
@@ -33,6 +34,8 @@ structure St where
   /-- state reconstructed from the implementation's answers -/
   impl : State := State.init
   implOk : Bool := true
+  /-- listener table of the model (audit F1); non-empty = the history has attached a listener -/
+  mirrors : Mirrors := []
 
 /-! ### printing -/
 
@@ -201,6 +204,9 @@ def parseOp (t : List String) : Option XOp :=
   | ["ap.getv", k, n] => do let k ← nat? k; guard (isAp k); pure (.apGetValue k (readName n))
   | ["ap.at", k, i] => do let k ← nat? k; let i ← nat? i; guard (isAp k); pure (.apAt k i)
   | ["ap.nons", k, n] => do let k ← nat? k; guard (isAp k); pure (.apNameNoNs k (readName n))
+  -- implicit copy constructor / copy assignment of the owner
+  | ["ap.copy", k, j] => do let k ← nat? k; let j ← nat? j; guard (isAp k && isAp j); pure (.apCopy k j)
+  | ["ap.assign", k, j] => do let k ← nat? k; let j ← nat? j; guard (isAp k && isAp j); pure (.apCopy k j)
   | _ => (parseBase t).map .base
 
 def parseOut (t : List String) : Option Out :=
@@ -267,23 +273,86 @@ def parseImpl (prev : State) (t : List String) : Option (XOut × Option (List Ob
 
 /-! ### the machine -/
 
+/-- with listeners attached, the operations that write values or clone parameters go through the
+listener-aware step; the others must be free of both (anything else is answered `unsupported`) -/
+def toLOp (op : XOp) : Option LOp :=
+  match op with
+  | .base (.copy k j) | .base (.assign k j) => some (.copy k j)
+  | .base (.subNames k j ns) => some (.subNames k j ns)
+  | .base (.subName k j n) => some (.subNames k j [n])
+  | .base (.setValue k n v) => some (.setValue k n v)
+  | .base (.setValues k j) => some (.setValues k j)
+  | .base (.add ..) | .base (.addPtr ..) | .base (.delName ..) | .base (.delIdx ..) | .base (.delIdxs ..)
+  | .base (.reset ..) | .base (.which ..) | .base (.has ..) | .base (.names ..) | .base (.getValue ..)
+  | .base (.size ..) | .base (.testValues ..) | .base (.shareSubNames ..) | .base (.shareSubIdxs ..)
+  | .nth .. | .param .. => some (.plain op)
+  | _ => none
+
+/-- the clauses are those of the listener-free specification; when the history has attached a
+listener a failure is reported under its own name (known findings `C02-copied-listeners`,
+`C02-listener-raise-half-way`): `frame` — an object outside the written list changed, which with
+listeners attached inside one list can only happen through a *copied* parameter — becomes
+`copy_independent_with_listeners`, `bulk_atomic` becomes `bulk_atomic_with_listeners` -/
+def renameClause (listening : Bool) (c : String) : String :=
+  if !listening then c
+  else if c == "frame" then "copy_independent_with_listeners"
+  else c ++ "_with_listeners"
+
+def lcheck (op : Op) (o : Out) (b a : State) : Option String :=
+  if !clauseNames NREG b op a then some "names_unique"
+  else if !clauseOk NREG b a then some "list_param_inv"
+  else if !clauseAtomic NREG b op o a then some "bulk_atomic"
+  else if !clauseFrame NREG b op a then some "frame"
+  else none
+
 def step (s : St) (opToks : List String) (impl : Option (List String)) : St × String × String :=
-  match parseOp opToks with
+  let parsed : Option (Option XOp × Option LOp) :=
+    match opToks with
+    | ["listen", k, n, t] =>
+      match nat? k with
+      | some k => if isReg k then some (none, some (.listen k (readName n) (readName t))) else none
+      | none => none
+    | _ =>
+      match parseOp opToks with
+      | none => none
+      | some op => if s.mirrors.isEmpty then some (some op, none) else some (some op, toLOp op)
+  match parsed with
   | none => (s, "bad-op", "-")
-  | some op =>
-    let (m', ans) := ParamList.xstep s.m op
-    let (ren', line) := showState m' ans s.ren
-    match impl with
-    | none => ({ s with m := m', ren := ren' }, line, "-")
-    | some t =>
-      if !s.implOk then ({ s with m := m', ren := ren' }, line, "-")
-      else match parseImpl s.impl t with
-        | none => ({ s with m := m', ren := ren', implOk := false }, line, "-")
-        | some (out, fired, a) =>
-          let verdict := match xcheckStep NREG s.impl op out fired a with
-            | none => "ok"
-            | some c => "FAIL:" ++ c
-          ({ m := m', ren := ren', impl := a, implOk := true }, line, verdict)
+  | some (xop, lop) =>
+    -- the model's step
+    let r : Option (State × Mirrors × XAns) :=
+      match lop, xop with
+      | some l, _ => (lstep { s := s.m, mirrors := s.mirrors } l).map (fun r => (r.1.s, r.1.mirrors, r.2))
+      | none, some op => if s.mirrors.isEmpty then (let r := ParamList.xstep s.m op; some (r.1, s.mirrors, r.2)) else none
+      | none, none => none
+    match r with
+    | none => (s, (if lop.isNone then "unsupported-with-listeners" else "out-of-fuel"), "-")
+    | some (m', mir', ans) =>
+      let (ren', line) := showState m' ans s.ren
+      match impl with
+      | none => ({ s with m := m', ren := ren', mirrors := mir' }, line, "-")
+      | some t =>
+        if !s.implOk then ({ s with m := m', ren := ren', mirrors := mir' }, line, "-")
+        else match parseImpl s.impl t with
+          | none => ({ s with m := m', ren := ren', implOk := false, mirrors := mir' }, line, "-")
+          | some (out, fired, a) =>
+            let verdict :=
+              match xop with
+              | none => if unchanged NREG s.impl a then "ok" else "FAIL:listen_changes_nothing"
+              | some op =>
+                let listening := !mir'.isEmpty
+                let r :=
+                  match listening, op, out with
+                  -- with listeners, a value write legitimately reaches the listeners' targets inside the
+                  -- written list: only names / constraints / atomicity / frame are judged, not the
+                  -- listener-free exactness clauses ("parameters not named are never touched", …)
+                  | true, .base (.setValue k n v), .base o => lcheck (.setValue k n v) o s.impl a
+                  | true, .base (.setValues k j), .base o => lcheck (.setValues k j) o s.impl a
+                  | _, _, _ => xcheckStep NREG s.impl op out fired a
+                match r with
+                | none => "ok"
+                | some c => "FAIL:" ++ renameClause listening c
+            ({ m := m', ren := ren', impl := a, implOk := true, mirrors := mir' }, line, verdict)
 
 def machine : Machine St := { init := fun _ => {}, step := step }
 
